@@ -1,27 +1,40 @@
 use proc_macro2::TokenStream;
 use quote::quote;
-use syn::{Field, Ident, Index};
+use syn::{Field, Index};
 
-pub fn tuple_exprs(fields: &[&Field], method_ident: &Ident) -> Vec<TokenStream> {
+/// Generates one `method(lhs, rhs)` call per field, where `method` is the fully qualified path of
+/// the operator's method (so an inherent method of the field type having the same name is never
+/// picked instead of the operator), and `lhs_ref` is the borrow (if any) the method takes its
+/// left-hand side by.
+pub fn tuple_exprs(
+    fields: &[&Field],
+    method: &TokenStream,
+    lhs_ref: &TokenStream,
+) -> Vec<TokenStream> {
     let mut exprs = vec![];
 
     for i in 0..fields.len() {
         let i = Index::from(i);
-        // generates `self.0.add(rhs.0)`
-        let expr = quote! { self.#i.#method_ident(rhs.#i) };
+        // generates `derive_more::core::ops::Add::add(self.0, rhs.0)`
+        let expr = quote! { #method(#lhs_ref self.#i, rhs.#i) };
         exprs.push(expr);
     }
     exprs
 }
 
-pub fn struct_exprs(fields: &[&Field], method_ident: &Ident) -> Vec<TokenStream> {
+/// Same as [`tuple_exprs()`], but for named fields.
+pub fn struct_exprs(
+    fields: &[&Field],
+    method: &TokenStream,
+    lhs_ref: &TokenStream,
+) -> Vec<TokenStream> {
     let mut exprs = vec![];
 
     for field in fields {
         // It's safe to unwrap because struct fields always have an identifier
         let field_id = field.ident.as_ref().unwrap();
-        // generates `x: self.x.add(rhs.x)`
-        let expr = quote! { self.#field_id.#method_ident(rhs.#field_id) };
+        // generates `derive_more::core::ops::Add::add(self.x, rhs.x)`
+        let expr = quote! { #method(#lhs_ref self.#field_id, rhs.#field_id) };
         exprs.push(expr)
     }
     exprs
